@@ -11,7 +11,7 @@ COQ_CHECK = ("Model.C04", "check")
 COQ_FALLBACK = None
 COQ_IMPORTS = ""
 SHARD = 12
-RULE = ("imaging datasets on random masks (densities 0.15-0.9, single pixel, ring with hole, full block) of <= 18 unmasked pixels in "
+RULE = ("imaging datasets on random masks (densities 0.15-0.9, single pixel, ring with hole, full block) of <= 20 unmasked pixels in "
         "frames up to 9x9 whose kernel footprint stays inside the frame; PSFs of shape {1x1,1x3,3x1,3x3,3x5,5x3,1x5,5x5} with signed / "
         "non-negative integer entries (use_normalized_psf=False so every double operation is exact); integer data of either sign; noise in "
         "{1/2,1,2,4} per pixel; 1..3 linear objects in random order mixing real MapperRectangular / MapperDelaunay objects (sub_size 1, 2, "
@@ -129,9 +129,9 @@ def synth_preload(rng, n):
 
 def gen_inputs(tier, rng):
     thorough = tier == "thorough"
-    n_inv = 150 if thorough else 40
-    n_util = 25 if thorough else 6
-    maxpix = 18 if thorough else 14
+    n_inv = 250 if thorough else 40
+    n_util = 40 if thorough else 6
+    maxpix = 20 if thorough else 14
     for i in range(n_inv):
         ds = rand_dataset(rng, maxpix if i % 4 else 9)
         if ds["m"] is None: continue
